@@ -26,7 +26,7 @@ pub struct C20Case {
     pub phase: u16,
     /// symbol timing offset / 65536 of a symbol
     pub timing: u16,
-    /// amplitude = 0.3 + amp/255 * 0.6
+    /// amplitude = 0.3 + amp/255 * 0.6; below 32: a quiet signal, 0.004 + amp/32 * 0.03
     pub amp: u8,
     /// streams of 64 KiB instead of the 4 MB default
     pub small_streams: bool,
@@ -105,6 +105,12 @@ pub fn tx_bits(c: &C20Case) -> Vec<u8> {
     bits
 }
 
+/// Signal level: mostly 0.3-0.9 of full scale; one case in eight is a quiet recording
+/// (0.004-0.034, i.e. -48 to -29 dBFS): an FM receiver discards the magnitude.
+fn amplitude(c: &C20Case) -> f64 {
+    if c.amp < 32 { 0.004 + c.amp as f64 / 32.0 * 0.03 } else { 0.3 + c.amp as f64 / 255.0 * 0.6 }
+}
+
 /// Sample n belongs to symbol floor((n/sr - tau) * baud); tau in [0, 1/baud).
 fn symbol_of(n: usize, sr: f64, baud: f64, timing: u16) -> Option<usize> {
     let t = n as f64 / sr * baud - timing as f64 / 65536.0;
@@ -115,7 +121,7 @@ fn symbol_of(n: usize, sr: f64, baud: f64, timing: u16) -> Option<usize> {
 pub fn afsk_1200(c: &C20Case) -> Vec<f32> {
     let sr = rate_of(c) as f64;
     let line = nrzi_encode(&tx_bits(c), 1);
-    let amp = 0.3 + c.amp as f64 / 255.0 * 0.6;
+    let amp = amplitude(c);
     let mut phase = c.phase as f64 / 65536.0 * std::f64::consts::TAU;
     let n_samples = ((line.len() + 1) as f64 * sr / 1200.0) as usize;
     let mut out = Vec::with_capacity(n_samples);
@@ -141,7 +147,7 @@ pub fn afsk_1200(c: &C20Case) -> Vec<f32> {
 pub fn fsk_9600(c: &C20Case) -> Vec<Complex> {
     let sr = rate_of(c) as f64;
     let line = nrzi_encode(&g3ruh_scramble(&tx_bits(c)), 1);
-    let amp = 0.3 + c.amp as f64 / 255.0 * 0.6;
+    let amp = amplitude(c);
     let mut phase = c.phase as f64 / 65536.0 * std::f64::consts::TAU;
     let n_samples = ((line.len() + 1) as f64 * sr / 9600.0) as usize;
     let mut out = Vec::with_capacity(n_samples);
@@ -326,6 +332,9 @@ impl Prop for C20 {
         if uses_pdu_writer(c) {
             ctx.class("sink=PduWriter (one file per frame)");
         }
+        if c.amp < 32 {
+            ctx.class("quiet signal (below -29 dBFS)");
+        }
         let want: Vec<Vec<u8>> = c.frames.iter().map(|f| f.payload()).collect();
         let non_integer_sps = (sr / if c.chain % 2 == 0 { 1200.0 } else { 9600.0 }).fract() != 0.0;
         if want.iter().any(|p| p.len() >= 100) || want.len() >= 3 || non_integer_sps {
@@ -370,7 +379,7 @@ impl Prop for C20 {
         }
     }
     fn rule(&self) -> String {
-        "generated: 1-8 frames with payloads of 10-300 bytes (random and stuffing-heavy), >= 2 flags between frames, 20-100 preamble flags, framed by the independent HDLC framer, then (a) NRZI -> Bell-202 continuous-phase AFSK (1200/2200 Hz) real audio at 44100/48000/50000 Hz or (b) G3RUH scrambler -> NRZI -> continuous-phase 2-FSK +-3 kHz complex baseband at 50000/100000 Hz, with generated start phase, sub-sample symbol timing offset and amplitude 0.3-0.9, followed either by trailing flags (the chains have no end-of-input flush) or - half of the cases - by exact digital silence (16 000 / 64 000 zero samples, with 0-8191 samples of silence in front) right after the last frame's separating flags, in a third of all cases after exactly the closing flag plus one idle flag; fed through the receive chains assembled from library blocks with the examples' parameters (1200: Hilbert(65) -> QuadratureDemod -> FftFilterFloat(low_pass 1100/100) -> add_const(-center) -> SymbolSync(0.5, [0.5,0.5]) -> BinarySlicer -> NrziDecode -> HdlcDeframer(10,1500); 9600: FftFilter(low_pass 12500/100) -> RationalResampler(50k) -> QuadratureDemod -> ZeroCrossing -> BinarySlicer -> NrziDecode -> Descrambler(0x21,0,16) or Descrambler::new_g3ruh -> HdlcDeframer(10,1500)) on Graph and on MTGraph (real threads), with 4 MB or 64 KiB streams; in one case of four the chain ends, as the documented receivers do, in a PduWriter and the delivered frames are the files of its directory in the order of their (time-of-writing) names. Oracle: delivered packets == transmitted payloads, each exactly once, in order, identical bytes, nothing else, same on both runners. Non-trivial: a frame >= 100 bytes, or >= 3 frames, or non-integer samples per symbol; distinct = hash of the case.".into()
+        "generated: 1-8 frames with payloads of 10-300 bytes (random and stuffing-heavy), >= 2 flags between frames, 20-100 preamble flags, framed by the independent HDLC framer, then (a) NRZI -> Bell-202 continuous-phase AFSK (1200/2200 Hz) real audio at 44100/48000/50000 Hz or (b) G3RUH scrambler -> NRZI -> continuous-phase 2-FSK +-3 kHz complex baseband at 50000/100000 Hz, with generated start phase, sub-sample symbol timing offset and amplitude 0.3-0.9 (one case in eight: a quiet signal at 0.004-0.034 of full scale), followed either by trailing flags (the chains have no end-of-input flush) or - half of the cases - by exact digital silence (16 000 / 64 000 zero samples, with 0-8191 samples of silence in front) right after the last frame's separating flags, in a third of all cases after exactly the closing flag plus one idle flag; fed through the receive chains assembled from library blocks with the examples' parameters (1200: Hilbert(65) -> QuadratureDemod -> FftFilterFloat(low_pass 1100/100) -> add_const(-center) -> SymbolSync(0.5, [0.5,0.5]) -> BinarySlicer -> NrziDecode -> HdlcDeframer(10,1500); 9600: FftFilter(low_pass 12500/100) -> RationalResampler(50k) -> QuadratureDemod -> ZeroCrossing -> BinarySlicer -> NrziDecode -> Descrambler(0x21,0,16) or Descrambler::new_g3ruh -> HdlcDeframer(10,1500)) on Graph and on MTGraph (real threads), with 4 MB or 64 KiB streams; in one case of four the chain ends, as the documented receivers do, in a PduWriter and the delivered frames are the files of its directory in the order of their (time-of-writing) names. Oracle: delivered packets == transmitted payloads, each exactly once, in order, identical bytes, nothing else, same on both runners. Non-trivial: a frame >= 100 bytes, or >= 3 frames, or non-integer samples per symbol; distinct = hash of the case.".into()
     }
     fn assumptions(&self) -> Vec<String> {
         vec![
